@@ -468,7 +468,7 @@ impl<'a, F: Function + MathFunction + Clone + Cross> World<'a, F> {
         tape: T,
     ) -> Option<T> {
         // 0: recycle into the stash, 1: hold (caller), 2: drop
-        match self.ch(|c| c.choose("dispose", 5)) {
+        match self.ch(|c| c.choose("dispose", 6)) {
             0..=2 => {
                 if let Some(s) = tape.recycle() {
                     self.workers[w].tape_stash.push(s);
@@ -477,7 +477,19 @@ impl<'a, F: Function + MathFunction + Clone + Cross> World<'a, F> {
                 None
             }
             3 => Some(tape),
-            _ => None,
+            4 => None,
+            _ => {
+                // tapes are shared by cloning: one handle is recycled while
+                // its sibling stays alive.  Whatever storage comes back is
+                // reused for later tapes; the sibling must be unaffected.
+                let keep = tape.clone();
+                self.rep.count("fault.shared_tape_handle_recycled", 1);
+                if let Some(s) = tape.recycle() {
+                    self.workers[w].tape_stash.push(s);
+                    self.rep.count("probe.shared_tape_gave_storage", 1);
+                }
+                Some(keep)
+            }
         }
     }
 
@@ -1623,6 +1635,10 @@ impl<'a, F: Function + MathFunction + Clone + Cross> World<'a, F> {
                 _ => (),
             }
         }
+        if !self.all_fresh && self.ch(|c| c.odds("rh_sibling", 1, 3)) {
+            self.rh_sibling(w, s, rh, &varmap, parent_clean);
+            return;
+        }
         let wk = &mut self.workers[w];
         let all_fresh = self.all_fresh;
         let r = rt::catch(|| {
@@ -1634,6 +1650,137 @@ impl<'a, F: Function + MathFunction + Clone + Cross> World<'a, F> {
         });
         if let Err(p) = r {
             self.violate10("render_handle_recycle_panics", p);
+        }
+    }
+
+    /// End of a `RenderHandle` episode with a sibling: the handle is cloned
+    /// once its tapes exist (handles are cloned to share them with other
+    /// workers), the original is recycled, whatever storage came back is
+    /// reused for a different function, and the sibling is evaluated.
+    fn rh_sibling(
+        &mut self,
+        w: usize,
+        s: usize,
+        mut rh: RenderHandle<F>,
+        varmap: &[(Var, usize)],
+        parent_clean: F,
+    ) {
+        self.rep.count("fault.render_handle_sibling_recycled", 1);
+        let nvars = varmap.len();
+        let get = |v: Var| varmap.iter().find(|(q, _)| *q == v).map(|(_, i)| *i);
+        let (ix, iy, iz) = (get(Var::X), get(Var::Y), get(Var::Z));
+        let npts = 1 + self.ch(|c| c.choose("rh_sib_npts", 9)) as usize;
+        let pts: Vec<Vec<f32>> = (0..npts)
+            .map(|_| self.draw_inputs_for(s, nvars)[..nvars].to_vec())
+            .collect();
+        let cols: Vec<Vec<f32>> = (0..nvars)
+            .map(|i| pts.iter().map(|p| p[i]).collect())
+            .collect();
+        let col = |i: Option<usize>| {
+            i.map(|i| cols[i].clone()).unwrap_or(vec![0.0; npts])
+        };
+        let (xs, ys, zs) = (col(ix), col(iy), col(iz));
+        let mut sv_f = ShapeVars::<Vec<f32>>::new();
+        for (v, i) in varmap {
+            if let Var::V(vi) = v {
+                sv_f.insert(*vi, cols[*i].clone());
+            }
+        }
+        let nslots = self.slots.len() as u32;
+        let o = self.ch(|c| c.choose("rh_sib_other", nslots)) as usize;
+        let other = self.slots[o].dirty.clone();
+        let other_clean = self.slots[o].clean.clone();
+        let on = other.vars().len();
+        let ocols: Vec<Vec<f32>> = (0..on)
+            .map(|_| (0..npts).map(|_| self.ch(draw_val)).collect())
+            .collect();
+        let use_g = self.ch(|c| c.flag("rh_sib_g"));
+        let wk = &mut self.workers[w];
+        let d = rt::catch(|| {
+            let _ = rh.f_tape(&mut wk.tape_stash);
+            let _ = rh.i_tape(&mut wk.tape_stash);
+            if use_g {
+                let _ = rh.g_tape(&mut wk.tape_stash);
+            }
+            let mut sib = rh.clone();
+            let before = wk.tape_stash.len();
+            rh.recycle(&mut wk.fn_stash, &mut wk.tape_stash);
+            // everything the recycle handed back now hosts another function
+            let mut back = vec![];
+            let mut ro = vec![];
+            while wk.tape_stash.len() > before {
+                let st = wk.tape_stash.pop().unwrap();
+                let t = other.float_slice_tape(st);
+                ro.push(ev_float::<F>(&mut wk.fe, &t, &ocols));
+                back.extend(t.recycle());
+            }
+            let gave = back.len();
+            wk.tape_stash.extend(back);
+            let v = wk
+                .sfe
+                .eval_raw(
+                    sib.f_tape(&mut wk.tape_stash),
+                    &xs,
+                    &ys,
+                    &zs,
+                    None,
+                    ShapeBulkEval::<F::FloatSliceEval>::var_array(&sv_f),
+                )
+                .expect("vars are bound")
+                .iter()
+                .map(|v| canon(*v))
+                .collect::<Vec<u32>>();
+            sib.recycle(&mut wk.fn_stash, &mut wk.tape_stash);
+            (ro, v, gave)
+        });
+        let c = rt::catch(|| {
+            let t = other_clean.float_slice_tape(Default::default());
+            let ro = ev_float::<F>(&mut F::new_float_slice_eval(), &t, &ocols);
+            let mut frh = RenderHandle::new(Shape::new_raw(parent_clean.clone()));
+            let v = ShapeBulkEval::<F::FloatSliceEval>::default()
+                .eval_raw(
+                    frh.f_tape(&mut vec![]),
+                    &xs,
+                    &ys,
+                    &zs,
+                    None,
+                    ShapeBulkEval::<F::FloatSliceEval>::var_array(&sv_f),
+                )
+                .expect("vars are bound")
+                .iter()
+                .map(|v| canon(*v))
+                .collect::<Vec<u32>>();
+            (ro, v)
+        });
+        self.rep.evaluations += 2;
+        match (d, c) {
+            (Ok((dro, dv, gave)), Ok((cro, cv))) => {
+                self.rep.count("probe.sibling_recycle_gave_storage", gave as u64);
+                self.st.borrow_mut().log("rh_sib", dv.len() as u64, gave as u64);
+                if dv != cv {
+                    self.violate10(
+                        "render_handle_sibling_changed_after_recycle",
+                        format!(
+                            "cloned handle gives {dv:?} after the original was recycled ({gave} storages reused), fresh {cv:?}"
+                        ),
+                    );
+                } else if dro.iter().any(|r| *r != cro) {
+                    self.violate10(
+                        "float_slice_result_differs_from_fresh",
+                        format!(
+                            "function built into storage recycled from a cloned handle: {dro:?} vs fresh {cro:?}"
+                        ),
+                    );
+                }
+            }
+            (Err(p), Ok(_)) => {
+                self.workers[w].ws = Default::default();
+                self.violate10("render_handle_sibling_panics", p);
+            }
+            _ => {
+                self.rep.count("other.clean_panic", 1);
+                self.st.borrow_mut().log("clean_panic", 2, 0);
+            }
         }
     }
 
